@@ -863,7 +863,11 @@ impl Rasn {
             ASN1Type::ElsewhereDeclaredType(d) if d.constraints.is_empty() => {
                 self.to_rust_qualified_type(d.module.as_deref(), &d.identifier)
             }
-            _ => format_ident!("Anonymous{}", &name.to_string()).to_token_stream(),
+            // the hoisted definition is named by title-casing this name once more, which removes
+            // the underscore of an escaped keyword (`Self` -> `R_Self`): spell the reference alike
+            _ => self
+                .to_rust_title_case(&(String::from(INNER_ARRAY_LIKE_PREFIX) + &name.to_string()))
+                .to_token_stream(),
         };
         let mut annotations = vec![
             quote!(delegate),
